@@ -22,6 +22,7 @@ RULE = ("random sequences rich / poor in S,T,Y (none, all, last residue S/T/Y, .
         "{set(int), set(list), set(tuple), clear, interleaved read-only queries} with positions from {0,-1,-N,-N-1,1,N,"
         "N+1,N+50, interior, duplicates, numpy ints}; distribution checked when k <= 6; distinct = distinct "
         "(sequence, operation word); non-trivial = word that sets at least one valid site")
+RULE += ("; added after the mutation rounds: length 6-9 S/T/Y-rich sequences; 130 ignored positions on one object before the ordinary operations; the first cases of every shard are judged again at its end")
 EXHAUSTIVE = {"quick": False, "thorough": False}
 ASSUMPTIONS = [
     "positions are 1-based; 'ignored' means no exception and no change of the list",
